@@ -10,6 +10,7 @@ import (
 	"path/filepath"
 	"sort"
 	"strings"
+	"time"
 
 	"github.com/spf13/afero"
 
@@ -339,7 +340,41 @@ func runViso(root string, c visoCase) (impl, oracle string) {
 			treeV = "tree=" + strings.ReplaceAll(strings.Join(d, "|"), " ", "_")
 		}
 	}
-	impl = sb.String() + " " + verdict + " " + treeV
+	// C18: the same unchanged directory opened again - later and concurrently - gives the same image
+	again := "again=same"
+	headOf := func() (string, int64) {
+		g, err := fsys.Open(prefix + c.dir)
+		if err != nil {
+			return "openerr", 0
+		}
+		defer g.Close()
+		gs, _ := g.Stat()
+		n := gs.Size()
+		if n > 2<<20 {
+			n = 2 << 20
+		}
+		buf := make([]byte, n)
+		k, _ := sectionReaderAt{g}.ReadAt(buf, 0)
+		maskImage(buf[:k], 0, c.ps3)
+		return digest(buf[:k]), gs.Size()
+	}
+	h0, s0 := headOf()
+	time.Sleep(15 * time.Millisecond)
+	type hs struct {
+		h string
+		s int64
+	}
+	ch := make(chan hs, 2)
+	for i := 0; i < 2; i++ {
+		go func() { h, s := headOf(); ch <- hs{h, s} }()
+	}
+	for i := 0; i < 2; i++ {
+		r := <-ch
+		if r.h != h0 || r.s != s0 || s0 != total {
+			again = "again=DIFFERENT"
+		}
+	}
+	impl = sb.String() + " " + verdict + " " + treeV + " wf=1 " + again
 	return impl, ""
 }
 
